@@ -4,6 +4,7 @@ use vcore::runner::{unhex, Mode, Report, Tier};
 
 mod c01;
 mod c02;
+mod c03;
 mod c05;
 mod c07;
 mod c08;
@@ -64,6 +65,7 @@ fn main() {
     match id.as_str() {
         "C01" => c01::run(report),
         "C02" => c02::run(report),
+        "C03" => c03::run(report),
         "C05" => c05::run(report),
         "C07" => c07::run(report),
         "C08" => c08::run(report),
